@@ -25,6 +25,7 @@ type Config struct {
 	MayBlock   []string // goroutine entry-function substrings allowed to remain blocked
 	PermuteMap bool
 	NoInit     []string // packages whose init is skipped
+	InitPkgs   []string // non-repo packages whose init runs for real
 }
 
 type Interp struct {
@@ -214,7 +215,7 @@ var stdAllowed = map[string]bool{
 	"math/bits": true, "strconv": true, "maps": true, "cmp": true, "internal/bytealg": true,
 	"internal/stringslite": true, "math": true, "io": true, "sync/atomic": true, "time": true,
 	"net/textproto": true, "net/http/internal/ascii": true, "internal/itoa": true,
-	"path/filepath": true, "internal/filepathlite": true, "bufio": true, "iter": true,
+	"path/filepath": true, "internal/filepathlite": true, "bufio": true, "iter": true, "context": true,
 }
 
 func (in *Interp) globalCell(g *ssa.Global) *Cell {
@@ -228,27 +229,40 @@ func (in *Interp) globalCell(g *ssa.Global) *Cell {
 	if g.Pkg != nil {
 		path = g.Pkg.Pkg.Path()
 	}
-	if g.Pkg != nil && in.pkgExecuted(path) {
+	if g.Pkg != nil && in.pkgInit(path) {
 		// real initial value: run the package's init first
 		in.ensureInit(g.Pkg)
 		return c
 	}
-	// foreign global: opaque unique object for pointer/interface types
-	switch elem.Underlying().(type) {
+	// foreign global (standard library / third party): sentinel values of
+	// interface type are opaque unique objects (compared by identity only);
+	// pointers point to an unreadable object; anything else is unreadable.
+	name := path + "." + g.Name()
+	switch et := elem.Underlying().(type) {
 	case *types.Pointer:
-		pc := in.newCell(elem.(*types.Pointer).Elem())
+		pc := &Cell{T: et.Elem(), V: poison{name}, ID: in.newID()}
 		c.V = Ptr{pc}
 	case *types.Interface:
-		c.V = Iface{T: opaqueType(path + "." + g.Name()), V: Opaque{ID: in.newID(), T: elem}}
-	case *types.Basic, *types.Struct, *types.Slice, *types.Map, *types.Signature, *types.Array, *types.Chan:
-		// leave zero, but remember that it is unmodelled
-		c.V = poison{path + "." + g.Name()}
-		if isAgg(elem) {
-			c.F = nil
-			c.T = types.Typ[types.Invalid]
-		}
+		c.V = Iface{T: opaqueType(name), V: Opaque{ID: in.newID(), T: elem}}
+	default:
+		c.V = poison{name}
+		c.F = nil
+		c.T = types.Typ[types.Invalid]
 	}
 	return c
+}
+
+// pkgInit: packages whose init runs for real (the repository's and the harness's).
+func (in *Interp) pkgInit(path string) bool {
+	if path == in.Cfg.HarnessPkg || strings.HasPrefix(path, "github.com/gotid/god") || strings.HasPrefix(path, "command-line-arguments") {
+		return true
+	}
+	for _, p := range in.Cfg.InitPkgs {
+		if p == path {
+			return true
+		}
+	}
+	return false
 }
 
 // poison marks an unmodelled foreign global; any use is inconclusive.
@@ -351,10 +365,27 @@ func (in *Interp) isHavoc(name string) bool {
 
 func (in *Interp) havocResult(fn *ssa.Function, name string) Value {
 	in.HavocHit[name] = true
-	res := fn.Signature.Results()
+	return in.havocSig(fn.Signature, name)
+}
+
+// havocSig builds unconstrained results for a skipped call: scalars are
+// fresh symbolic values, interfaces inert opaque objects (their methods are
+// no-ops returning havoc), pointers fresh zero objects.
+func (in *Interp) havocSig(sig *types.Signature, name string) Value {
+	res := sig.Results()
 	mk := func(t types.Type) Value {
 		if s, ok := sortOf(t); ok {
 			return in.Eng.Fresh("havoc:"+name, s)
+		}
+		switch u := t.Underlying().(type) {
+		case *types.Interface:
+			if types.Identical(t, types.Universe.Lookup("error").Type()) {
+				return Iface{}
+			}
+			ot := opaqueType("havoc:" + name)
+			return Iface{T: ot, V: Opaque{ID: in.newID(), T: ot}}
+		case *types.Pointer:
+			return Ptr{in.newCell(u.Elem())}
 		}
 		return in.zero(t)
 	}
@@ -373,6 +404,14 @@ func (in *Interp) havocResult(fn *ssa.Function, name string) Value {
 
 func (in *Interp) callFunction(fn *ssa.Function, args []Value, bind []Value) Value {
 	name := fn.String()
+	if fn.Name() == "init" && fn.Parent() == nil && fn.Synthetic != "" && fn.Pkg != nil && len(args) == 0 {
+		// package initializer called from another initializer: packages are
+		// initialised on demand (first access to one of their globals)
+		if in.pkgInit(fn.Pkg.Pkg.Path()) {
+			in.ensureInit(fn.Pkg)
+		}
+		return nil
+	}
 	if fn.Pkg != nil && fn.Pkg == in.harnessPkg && strings.HasPrefix(fn.Name(), "verif") && fn.Parent() == nil {
 		if h, ok := nondetAPI[fn.Name()]; ok {
 			return h(in, fn, args)
@@ -810,7 +849,7 @@ func (in *Interp) ptrOf(v Value) *Cell {
 			panic(in.runtimePanic("invalid memory address or nil pointer dereference"))
 		}
 		if po, ok := p.C.V.(poison); ok {
-			panic(in.inconclusive("use of unmodelled foreign global %s", po.name))
+			panic(in.inconclusive("use of unmodelled foreign global %s (no init is run for packages outside the repository)", po.name))
 		}
 		return p.C
 	case Opaque:
@@ -913,7 +952,18 @@ func (in *Interp) lookupMethod(iv Iface, m *types.Func) FuncV {
 			}
 			return FuncV{Fn: sf}
 		}
+		if strings.HasPrefix(iv.T.String(), "opaque:havoc:") {
+			sig := m.Type().(*types.Signature)
+			hn := iv.T.String() + "." + m.Name()
+			return FuncV{Native: func(in *Interp, args []Value) Value {
+				in.HavocHit["method on inert havoc object: "+hn] = true
+				return in.havocSig(sig, hn)
+			}}
+		}
 		if m.Name() == "Error" || m.Name() == "String" {
+			if s, ok := iv.V.(Str); ok {
+				return FuncV{Native: func(in *Interp, args []Value) Value { return s }}
+			}
 			s := StrOf("<" + iv.T.String() + ">")
 			return FuncV{Native: func(in *Interp, args []Value) Value { return s }}
 		}
@@ -926,10 +976,45 @@ func (in *Interp) lookupMethod(iv Iface, m *types.Func) FuncV {
 	return FuncV{Fn: fn}
 }
 
-func (in *Interp) doCall(fr *Frame, call *ssa.CallCommon, site ssa.Instruction) Value {
+func (in *Interp) doCall(fr *Frame, call *ssa.CallCommon, site ssa.Instruction) (ret Value) {
 	fv, args := in.prepareCall(fr, call)
+	if in.inInit > 0 && fr.fn.Name() == "init" && fr.fn.Synthetic != "" && fr.fn.Pkg != in.harnessPkgInitGuard() {
+		// Package initialisation is best effort: an initialiser that cannot
+		// be modelled (or panics) is replaced by an unconstrained result and
+		// recorded, so that the remaining globals still get their values.
+		g := in.cur
+		saveFr, saveDepth := g.fr, in.depth
+		defer func() {
+			if r := recover(); r != nil {
+				reason := ""
+				switch x := r.(type) {
+				case *GoPanic:
+					reason = "panic: " + in.panicText(x)
+				case pathAbort:
+					if x.kind != "inconclusive" {
+						panic(r)
+					}
+					reason = x.reason
+					if i := strings.Index(reason, "\n"); i > 0 {
+						reason = reason[:i]
+					}
+				default:
+					panic(r)
+				}
+				g.fr, in.depth = saveFr, saveDepth
+				name := "?"
+				if fv.Fn != nil {
+					name = fv.Fn.String()
+				}
+				in.HavocHit["init-time call replaced by havoc: "+name+" ("+reason+")"] = true
+				ret = in.havocSig(call.Signature(), "init:"+name)
+			}
+		}()
+	}
 	return in.callValue(fv, args, site)
 }
+
+func (in *Interp) harnessPkgInitGuard() *ssa.Package { return nil }
 
 func (in *Interp) typeAssert(fr *Frame, x *ssa.TypeAssert) Value {
 	v := in.get(fr, x.X)
